@@ -539,3 +539,114 @@ func leafErrReturns(f *ssa.Function) []leafReturn {
 	}
 	return out
 }
+
+// ------------------------------------------------------------------ C15.R9
+// Which marker delimits the records of the unfinished height: the writer puts #ENDHEIGHT 0 into an empty
+// log (BaseWAL.OnStart) and #ENDHEIGHT h after finishing height h (finalizeCommit). The replay of height H
+// must therefore look for H-1 — except for the chain's first height, whose records follow marker 0 whatever
+// the initial height is. Looking for InitialHeight-1 finds nothing: the node starts without replay and has
+// lost its lock and votes.
+func init() {
+	register("C15", "R9", "K5", "replay looks for the marker the writer put before the unfinished height: H-1, or 0 for the chain's first height", 4, func(c *Ctx) {
+		w := c.W
+		// writers
+		if f := c.fn("consensus", "BaseWAL.OnStart"); f != nil {
+			n := 0
+			for _, call := range w.callsMatching(f, `\.WriteSync\(`) {
+				if strings.Contains(w.callStr(call), "EndHeightMessage") || strings.Contains(w.callStr(call), "complit") {
+					n++
+					c.guards(f, call, funcKey(f)+" :: write marker 0", 0, guardCmp("the log is empty", `.*size.*|.*Size\(\).*`, "==", "0"))
+				}
+			}
+			c.Check(n == 1, funcKey(f)+" :: an empty log starts with a marker", w.pos(f.Pos()), "one synced marker write", fmt.Sprintf("%d", n))
+			zero := false
+			for _, di := range w.deepInstrs(f, 1) {
+				if st, ok := di.in.(*ssa.Store); ok {
+					if fa, ok := st.Addr.(*ssa.FieldAddr); ok && fieldName(fa.X.Type(), fa.Field) == "Height" {
+						if nt := derefNamed(fa.X.Type()); nt != nil && nt.Obj().Name() == "EndHeightMessage" {
+							k, isC := constInt(st.Val)
+							zero = isC && k == 0
+						}
+					}
+				}
+			}
+			c.Check(zero, funcKey(f)+" :: the first marker is #ENDHEIGHT 0", w.pos(f.Pos()), "EndHeightMessage{0}", "the marker of an empty log is not height 0")
+		}
+		// reader
+		f := c.fn("consensus", "State.catchupReplay")
+		if f == nil {
+			return
+		}
+		fk := funcKey(f)
+		var searches []deepCall
+		for _, dc := range w.deepCallsTo(f, 2, "consensus#WAL.SearchForEndHeight", "consensus#BaseWAL.SearchForEndHeight") {
+			searches = append(searches, dc)
+		}
+		if !c.Check(len(searches) == 2, fk+" :: sanity search and marker search found", w.pos(f.Pos()), "2 searches", fmt.Sprintf("%d", len(searches))) {
+			return
+		}
+		H := paramName(f, 1)
+		var marker ssa.Value
+		var at ssa.CallInstruction
+		for _, dc := range searches {
+			a := callArgs(dc.call)[0]
+			if dc.arg(0) != H {
+				marker, at = a, dc.call
+			}
+		}
+		if !c.Check(marker != nil, fk+" :: marker search found", w.pos(f.Pos()), "search for another height than the one replayed", "both searches look for "+H) {
+			return
+		}
+		// the marker is chosen in place (a phi) or by a helper answering (marker, error)
+		type alt struct {
+			val   ssa.Value
+			holds func(g Guard) bool
+		}
+		var alts []alt
+		firstG := guardCmp("first height", q(H), "==", `.*\.InitialHeight`)
+		otherG := guardCmp("not the first height", q(H), "!=", `.*\.InitialHeight`)
+		if phi, isPhi := marker.(*ssa.Phi); isPhi {
+			for i, e := range phi.Edges {
+				pred, blk, fn := phi.Block().Preds[i], phi.Block(), phi.Parent()
+				alts = append(alts, alt{e, func(g Guard) bool { ok, _ := c.ge().guardedEdge(fn, pred, blk, g, 0); return ok }})
+			}
+		} else if ex, isEx := marker.(*ssa.Extract); isEx {
+			if call, ok := ex.Tuple.(*ssa.Call); ok {
+				if h := staticCallee(call); h != nil && h.Blocks != nil && len(call.Common().Args) == len(h.Params) {
+					sub := map[ssa.Value]string{}
+					for i, p := range h.Params {
+						sub[p] = w.expr(call.Common().Args[i])
+					}
+					for _, sp := range successPoints(w, h) {
+						ret, isRet := sp.at.(*ssa.Return)
+						if !isRet || ex.Index >= len(ret.Results) {
+							continue
+						}
+						r := ret
+						alts = append(alts, alt{resultValueAt(r, ex.Index), func(g Guard) bool {
+							saved := w.subst
+							w.subst = sub
+							defer func() { w.subst = saved }()
+							ok, _ := c.ge().guardedLocal(h, r, g, 0)
+							return ok
+						}})
+					}
+				}
+			}
+		}
+		okShape, okFirst, okOther := len(alts) == 2, false, false
+		for _, a := range alts {
+			if k, isC := constInt(a.val); isC && k == 0 {
+				okFirst = a.holds(firstG)
+			} else if regexp.MustCompile(`^\(\w+ - 1\)$`).MatchString(w.arith(a.val)) {
+				if b, ok := stripConv(a.val).(*ssa.BinOp); ok {
+					if _, isParam := stripConv(b.X).(*ssa.Parameter); isParam {
+						okOther = a.holds(otherG)
+					}
+				}
+			}
+		}
+		c.Check(okShape && okFirst, fk+" :: the chain's first height is replayed from marker 0", w.ipos(at), "0 when "+H+" == InitialHeight", "the marker looked for is "+w.expr(marker)+": with an initial height above 1 the first height's records (written after #ENDHEIGHT 0) are not found")
+		c.Check(okShape && okOther, fk+" :: any later height is replayed from the marker of the height before", w.ipos(at), H+" - 1 otherwise", "the marker looked for is "+w.expr(marker))
+	})
+}
